@@ -126,6 +126,16 @@ def _starts_above(w: str, v: str, loop, depth: int) -> bool:
                         ok_init = True
                         continue
                     return False
+                if isinstance(val, ast.Call) and isinstance(val.func, ast.Attribute) and val.func.attr == "end" and not val.args \
+                        and isinstance(val.func.value, ast.Name):
+                    # M.end() of M = <pattern>.match(<text>, v): the match begins at v, so its end lies above v (non-empty match, as above)
+                    m_defs = [y.value for st2 in loop.body for y in ast.walk(st2) if isinstance(y, ast.Assign) and len(y.targets) == 1
+                              and norm(y.targets[0]) == val.func.value.id]
+                    if m_defs and all(isinstance(d, ast.Call) and isinstance(d.func, ast.Attribute) and d.func.attr == "match"
+                                      and len(d.args) == 2 and norm(d.args[1]) == v for d in m_defs):
+                        ok_init = True
+                        continue
+                    return False
                 if isinstance(val, ast.Name) and _starts_above(val.id, v, loop, depth + 1):
                     ok_init = True
                     continue
